@@ -9,8 +9,8 @@ PLAN = dict(
     assumptions=SC_TSO + ["RTM transactions abort at every baton hand-over, so speculative mutexes mostly run their fallback path here"],
     floor=dict(quick=50, thorough=200),
     tiers=dict(
-        quick=[det("rel", H, "cs-rel", 16, 120, 5, tso=True, time_cap=30),
-               det("dbg", H, "cs-dbg", 16, 60, 5, tso=True, time_cap=20),
+        quick=[det("rel", H, "cs-rel", 16, 300, 5, tso=True, time_cap=35),
+               det("dbg", H, "cs-dbg", 16, 120, 5, tso=True, time_cap=25),
                det("sleepy-enum-sbload", H, "cs-rel", 16, 12, 2, tso=True, time_cap=20, enum="sbload", enum_cap=40, args=["--sleepy"]),
                tsan("C08", 8, 300)],
         thorough=[det("rel", H, "cs-rel", 16, 3000, 6, tso=True, time_cap=240),
